@@ -30,6 +30,13 @@ func init() {
 			x.nondets = append(x.nondets, NondetRec{Tag: tag, Kind: "choice", Val: uint64(k)})
 			return x.tc.Const(64, uint64(k))
 		},
+		"verifIte": func(fr *frame, a []Value) Value {
+			return fr.x.tc.Ite(a[0].(*Term), a[1].(*Term), a[2].(*Term))
+		},
+		"verifB2I": func(fr *frame, a []Value) Value {
+			tc := fr.x.tc
+			return tc.Ite(a[0].(*Term), tc.Const(64, 1), tc.Const(64, 0))
+		},
 		"verifParam": func(fr *frame, a []Value) Value {
 			x := fr.x
 			name := x.tagOf(a[0])
